@@ -356,6 +356,11 @@ func (s *Server) keepaliveHandler(ctx context.Context) {
 		case <-ticker.C:
 			for _, c := range s.ClientMgr.List() {
 				c.mu.Lock()
+				if s.ClientMgr.Get(c.ID) != c {
+					// disconnected since the list was taken: nothing to announce about this user any more
+					c.mu.Unlock()
+					continue
+				}
 				c.IdleTime += idleCheckInterval
 
 				// Check if the user
